@@ -94,8 +94,14 @@ def write_puml(d, name, comps, rel, rng):
     for a, b in rel:
         lines.append(rng.choice([f"[{a}] --> [{b}]", f"[{b}] <-- [{a}]", f"[{a}] -> [{b}]"]))
     rng.shuffle(lines)
+    eol = "\n"
+    if rng.random() < 0.3:
+        # the same diagram laid out differently: indentation, trailing blanks, tabs between tokens, CRLF line ends
+        lines = [rng.choice(["", "  ", "\t"]) + l.replace(" ", rng.choice([" ", "  ", "\t"])) + rng.choice(["", " ", "\t"]) for l in lines]
+        eol = rng.choice(["\n", "\r\n"])
     p = Path(d) / name
-    p.write_text("@startuml\n" + "\n".join(lines) + "\n@enduml\n")
+    with open(p, "w", encoding="utf-8", newline="") as fh:
+        fh.write("@startuml" + eol + eol.join(lines) + eol + "@enduml" + eol)
     return p
 
 
